@@ -22,9 +22,10 @@ try:
         t = time.time()
         c = sh('cd %s && VERIF_REPO=%s ./check %s --tier quick' % (VERIF, WT, meta['property']))
         keys = re.findall(r'key=(\S+)', c.stdout)
-        rec = dict(id=sid, property=meta['property'], exit=c.returncode, detected=c.returncode == 1, seconds=round(time.time() - t, 1), keys=keys[:3])
+        rec = dict(id=sid, property=meta['property'], exit=c.returncode, detected=c.returncode == 1, seconds=round(time.time() - t, 1), keys=keys[:3],
+                   expected_detected=meta.get('expected_detected', True))
         res.append(rec); print('%-10s %s exit=%d %6.1fs %s' % (sid, 'DETECTED' if rec['detected'] else '** MISSED **', c.returncode, rec['seconds'], keys[:2])); sys.stdout.flush()
 finally:
     sh('git -C /repo worktree remove --force %s' % WT); sh('rmdir %s' % os.path.dirname(WT))
 json.dump(res, open(os.path.join(HERE, 'seeded.results.json'), 'w'), indent=1)
-sys.exit(0 if all(r.get('detected') for r in res) else 1)
+sys.exit(0 if all(r.get('detected') == r.get('expected_detected', True) for r in res) else 1)
